@@ -144,7 +144,13 @@ impl Env {
             let mut dirs: Vec<PathBuf> = Vec::with_capacity(targets.len());
             for t in targets.iter() {
                 match t.as_path().parent() {
-                    Some(par) => dirs.push(helpers::abs_path(&cwd, &par).into_owned()),
+                    // (cleaned: "sub/.." is not a directory below "sub".  Taken as written,
+                    // `redo ../x` run from p/sub as the first command ever put the database
+                    // into p/sub/.redo; the next command run from p then created a second
+                    // one, in which x was unknown and was taken for a source.)
+                    Some(par) => dirs.push(
+                        helpers::normpath(&helpers::abs_path(&cwd, &par)).into_owned(),
+                    ),
                     None => {
                         return Err(
                             RedoErrorKind::InvalidTarget(t.as_os_str().to_os_string()).into()
